@@ -7,6 +7,7 @@ use shuttle::scheduler::{Schedule, Scheduler, Task, TaskId};
 use simctx::{Ctx, LogHash, Outcome, Rng, RngPlan, TakePolicy};
 use std::cell::RefCell;
 use std::panic::{catch_unwind, AssertUnwindSafe};
+use std::sync::mpsc::{channel, Receiver, Sender};
 use std::sync::{Arc, Mutex};
 
 // ---------------------------------------------------------------------------------------------
@@ -141,7 +142,7 @@ impl SimCfg {
 }
 
 // ---------------------------------------------------------------------------------------------
-// Schedulers
+// Scheduler
 // ---------------------------------------------------------------------------------------------
 
 #[derive(Default, Debug)]
@@ -153,22 +154,24 @@ struct SchedRecord {
     /// hash over decisions at branching points only (schedule signature)
     sig: u64,
     diverged: bool,
+    step_limited: bool,
 }
 
-struct SimScheduler {
+/// Decision state for one execution.
+struct Decider {
     spec: SchedSpec,
     rng: Rng,
-    started: bool,
-    rec: Arc<Mutex<SchedRecord>>,
     step: usize,
+    max_steps: usize,
     // PCT state
     prio: Vec<u64>,
     drops: Vec<usize>,
     low: u64,
+    rec: SchedRecord,
 }
 
-impl SimScheduler {
-    fn new(spec: SchedSpec, rec: Arc<Mutex<SchedRecord>>) -> Self {
+impl Decider {
+    fn new(spec: SchedSpec, max_steps: usize) -> Self {
         let seed = match &spec {
             SchedSpec::Seeded { seed, .. } => *seed,
             SchedSpec::Replay(_) => 0,
@@ -180,7 +183,7 @@ impl SimScheduler {
                 drops.push(rng.below((*horizon).max(1) as usize));
             }
         }
-        SimScheduler { spec, rng, started: false, rec, step: 0, prio: Vec::new(), drops, low: 0 }
+        Decider { spec, rng, step: 0, max_steps, prio: Vec::new(), drops, low: 0, rec: SchedRecord::default() }
     }
 
     fn prio_of(&mut self, id: usize) -> u64 {
@@ -191,30 +194,14 @@ impl SimScheduler {
         }
         self.prio[id]
     }
-}
 
-fn fallback(runnable: &[&Task], current: Option<TaskId>) -> TaskId {
-    if let Some(c) = current {
-        if runnable.iter().any(|t| t.id() == c) {
-            return c;
-        }
-    }
-    runnable.iter().map(|t| t.id()).min().unwrap()
-}
-
-impl Scheduler for SimScheduler {
-    fn new_execution(&mut self) -> Option<Schedule> {
-        if self.started {
-            None
-        } else {
-            self.started = true;
-            Some(Schedule::new(0))
-        }
-    }
-
-    fn next_task(&mut self, runnable: &[&Task], current: Option<TaskId>, _is_yielding: bool) -> Option<TaskId> {
+    fn next(&mut self, runnable: &[&Task], current: Option<TaskId>) -> Option<TaskId> {
         let step = self.step;
         self.step += 1;
+        if step >= self.max_steps {
+            self.rec.step_limited = true;
+            return None;
+        }
         let n = runnable.len();
         let mut diverged = false;
         let chosen: TaskId = match &self.spec {
@@ -278,29 +265,40 @@ impl Scheduler for SimScheduler {
             }
         };
         let cid = usize::from(chosen) as u32;
-        {
-            let mut r = self.rec.lock().unwrap();
-            r.choices.push(cid);
-            r.max_runnable = r.max_runnable.max(n);
-            if n >= 2 {
-                r.branching += 1;
-                let mut s = r.sig ^ ((cid as u64) << 32 | n as u64);
-                r.sig = simctx::splitmix64(&mut s);
-            }
-            r.diverged |= diverged;
+        let r = &mut self.rec;
+        r.choices.push(cid);
+        r.max_runnable = r.max_runnable.max(n);
+        if n >= 2 {
+            r.branching += 1;
+            let mut s = r.sig ^ ((cid as u64) << 32 | n as u64);
+            r.sig = simctx::splitmix64(&mut s);
         }
+        r.diverged |= diverged;
         simctx::log(simctx::EV_SCHED, cid as u64, n as u64);
         Some(chosen)
     }
+}
 
-    fn next_u64(&mut self) -> u64 {
-        self.rng.next_u64()
+fn fallback(runnable: &[&Task], current: Option<TaskId>) -> TaskId {
+    if let Some(c) = current {
+        if runnable.iter().any(|t| t.id() == c) {
+            return c;
+        }
     }
+    runnable.iter().map(|t| t.id()).min().unwrap()
 }
 
 // ---------------------------------------------------------------------------------------------
-// Running one execution
+// The engine: one long-lived shuttle Runner per driver thread
 // ---------------------------------------------------------------------------------------------
+//
+// shuttle allocates a coroutine stack per spawned task and only recycles stacks between the
+// executions of ONE `Runner::run` call. So the engine keeps one `Runner::run` alive on a
+// companion OS thread and feeds it executions: the scheduler's `new_execution` blocks until the
+// driver sends the next job. Exactly one of the two threads runs at any time; everything that
+// decides the execution (context, scheduler state) is (re)initialised from the job's explicit
+// configuration, so an execution does not depend on what ran before it (the determinism
+// self-test checks exactly that).
 
 #[derive(Clone, Debug, PartialEq)]
 pub enum Abort {
@@ -339,10 +337,45 @@ pub struct SimOut<R> {
     pub counters: Counters,
 }
 
+type Body = Arc<dyn Fn() + Send + Sync + 'static>;
+
+struct Job {
+    cfg: SimCfg,
+    body: Body,
+}
+
+struct Done {
+    abort: Option<Abort>,
+    completed: bool,
+    rec: SchedRecord,
+    ctx: Ctx,
+}
+
+struct Current {
+    body: Body,
+    decider: Decider,
+    completed: bool,
+}
+
+struct EngineSide {
+    jobs: Receiver<Job>,
+    done: Sender<Done>,
+    cur: Option<Current>,
+}
+
 thread_local! {
     static LAST_PANIC: RefCell<Option<String>> = const { RefCell::new(None) };
     /// when > 0, panics on this thread are expected (captured, not printed)
     static QUIET: RefCell<u32> = const { RefCell::new(0) };
+    /// engine thread only
+    static ENGINE_SIDE: RefCell<Option<EngineSide>> = const { RefCell::new(None) };
+    /// driver thread only
+    static ENGINE: RefCell<Option<EngineHandle>> = const { RefCell::new(None) };
+}
+
+struct EngineHandle {
+    jobs: Sender<Job>,
+    done: Receiver<Done>,
 }
 
 /// Install a process-wide panic hook that records the message per thread and prints only when
@@ -382,78 +415,157 @@ pub fn take_last_panic() -> Option<String> {
     LAST_PANIC.with(|p| p.borrow_mut().take())
 }
 
+/// Finish the job that is current on the engine thread (if any) and report it to the driver.
+fn finish_current(abort: Option<Abort>) {
+    let cur = ENGINE_SIDE.with(|e| e.borrow_mut().as_mut().and_then(|e| e.cur.take()));
+    if let Some(cur) = cur {
+        let ctx = simctx::install(Ctx::idle());
+        let abort = match abort {
+            Some(a) => Some(a),
+            None if cur.decider.rec.step_limited => Some(Abort::StepLimit(format!("more than {} scheduler steps", cur.decider.max_steps))),
+            None => None,
+        };
+        let done = Done { abort, completed: cur.completed, rec: cur.decider.rec, ctx };
+        ENGINE_SIDE.with(|e| {
+            if let Some(e) = e.borrow().as_ref() {
+                let _ = e.done.send(done);
+            }
+        });
+    }
+}
+
+struct EngineScheduler;
+
+impl Scheduler for EngineScheduler {
+    fn new_execution(&mut self) -> Option<Schedule> {
+        finish_current(None);
+        let job = ENGINE_SIDE.with(|e| e.borrow().as_ref().and_then(|e| e.jobs.recv().ok()))?;
+        let cfg = &job.cfg;
+        let mut ctx = Ctx::idle();
+        ctx.pool = cfg.pool.clamp(1, 64);
+        ctx.take = cfg.take.to_ctx();
+        ctx.inner_full = cfg.inner_full;
+        ctx.aux = Rng::new(cfg.aux_seed);
+        ctx.rng = match &cfg.rng {
+            RngSpec::Stream { seed, adversarial, abs, period } => {
+                ctx.abs = abs.clone();
+                ctx.abs_period = *period;
+                RngPlan::Stream { rng: Rng::new(*seed), adversarial: *adversarial }
+            }
+            RngSpec::List(items) => RngPlan::List { items: items.iter().map(|o| o.to_ctx()).collect(), pos: 0 },
+        };
+        let _ = simctx::install(ctx);
+        let _ = take_last_panic();
+        let cur = Current { body: job.body.clone(), decider: Decider::new(cfg.sched.clone(), cfg.max_steps), completed: false };
+        ENGINE_SIDE.with(|e| e.borrow_mut().as_mut().unwrap().cur = Some(cur));
+        Some(Schedule::new(0))
+    }
+
+    fn next_task(&mut self, runnable: &[&Task], current: Option<TaskId>, _is_yielding: bool) -> Option<TaskId> {
+        ENGINE_SIDE.with(|e| {
+            let mut e = e.borrow_mut();
+            let cur = e.as_mut().unwrap().cur.as_mut().expect("scheduling decision without a current job");
+            cur.decider.next(runnable, current)
+        })
+    }
+
+    fn next_u64(&mut self) -> u64 {
+        ENGINE_SIDE.with(|e| {
+            let mut e = e.borrow_mut();
+            e.as_mut().unwrap().cur.as_mut().map(|c| c.decider.rng.next_u64()).unwrap_or(0)
+        })
+    }
+}
+
+fn engine_main(jobs: Receiver<Job>, done: Sender<Done>) {
+    QUIET.with(|q| *q.borrow_mut() += 1);
+    ENGINE_SIDE.with(|e| *e.borrow_mut() = Some(EngineSide { jobs, done, cur: None }));
+    loop {
+        let mut config = shuttle::Config::new();
+        config.stack_size = 1 << 19;
+        config.failure_persistence = shuttle::FailurePersistence::None;
+        config.max_steps = shuttle::MaxSteps::None;
+        config.silence_warnings = true;
+        let runner = shuttle::Runner::new(EngineScheduler, config);
+        let res = catch_unwind(AssertUnwindSafe(move || {
+            runner.run(|| {
+                let body = ENGINE_SIDE.with(|e| e.borrow().as_ref().unwrap().cur.as_ref().unwrap().body.clone());
+                simctx::with(|c| c.active = true);
+                body();
+                simctx::with(|c| c.active = false);
+                ENGINE_SIDE.with(|e| {
+                    if let Some(c) = e.borrow_mut().as_mut().unwrap().cur.as_mut() {
+                        c.completed = true;
+                    }
+                });
+            });
+        }));
+        match res {
+            Ok(()) => break, // job channel closed
+            Err(payload) => {
+                let wrapper = if let Some(s) = payload.downcast_ref::<&str>() {
+                    s.to_string()
+                } else if let Some(s) = payload.downcast_ref::<String>() {
+                    s.clone()
+                } else {
+                    String::new()
+                };
+                let msg = take_last_panic().unwrap_or_else(|| wrapper.clone());
+                let low = format!("{msg} {wrapper}").to_lowercase();
+                let abort = if low.contains("deadlock") {
+                    Abort::Deadlock(msg)
+                } else {
+                    Abort::Panic(msg)
+                };
+                simctx::with(|c| c.active = false);
+                finish_current(Some(abort));
+            }
+        }
+    }
+}
+
+fn with_engine<R>(f: impl FnOnce(&EngineHandle) -> R) -> R {
+    ENGINE.with(|e| {
+        let mut e = e.borrow_mut();
+        if e.is_none() {
+            let (jtx, jrx) = channel::<Job>();
+            let (dtx, drx) = channel::<Done>();
+            std::thread::Builder::new()
+                .name("opwsim-engine".into())
+                .stack_size(8 << 20)
+                .spawn(move || engine_main(jrx, dtx))
+                .expect("cannot start engine thread");
+            *e = Some(EngineHandle { jobs: jtx, done: drx });
+        }
+        f(e.as_ref().unwrap())
+    })
+}
+
 /// Run `body` as one simulated execution under `cfg`.
 pub fn simulate<R, F>(cfg: &SimCfg, body: F) -> SimOut<R>
 where
     R: Send + 'static,
     F: Fn() -> R + Send + Sync + 'static,
 {
-    let mut ctx = Ctx::idle();
-    ctx.pool = cfg.pool.clamp(1, 64);
-    ctx.take = cfg.take.to_ctx();
-    ctx.inner_full = cfg.inner_full;
-    ctx.aux = Rng::new(cfg.aux_seed);
-    ctx.rng = match &cfg.rng {
-        RngSpec::Stream { seed, adversarial, abs, period } => {
-            ctx.abs = abs.clone();
-            ctx.abs_period = *period;
-            RngPlan::Stream { rng: Rng::new(*seed), adversarial: *adversarial }
-        }
-        RngSpec::List(items) => RngPlan::List { items: items.iter().map(|o| o.to_ctx()).collect(), pos: 0 },
-    };
-    let _old = simctx::install(ctx);
-    let _ = take_last_panic();
-
-    let rec = Arc::new(Mutex::new(SchedRecord::default()));
-    let sched = SimScheduler::new(cfg.sched.clone(), rec.clone());
-    let mut config = shuttle::Config::new();
-    config.stack_size = 1 << 20;
-    config.failure_persistence = shuttle::FailurePersistence::None;
-    config.max_steps = shuttle::MaxSteps::FailAfter(cfg.max_steps);
-    config.silence_warnings = true;
-
     let slot: Arc<Mutex<Option<R>>> = Arc::new(Mutex::new(None));
     let slot2 = slot.clone();
-    let runner = shuttle::Runner::new(sched, config);
-    let outcome = quiet_panics(|| {
-        catch_unwind(AssertUnwindSafe(move || {
-            runner.run(move || {
-                simctx::with(|c| c.active = true);
-                let r = body();
-                simctx::with(|c| c.active = false);
-                *slot2.lock().unwrap() = Some(r);
-            });
-        }))
-    });
-
-    let ctx = simctx::install(Ctx::idle());
-    let rec = std::mem::take(&mut *rec.lock().unwrap());
-    let first_panic = take_last_panic();
-    let result = match outcome {
-        Ok(()) => match slot.lock().unwrap().take() {
-            Some(r) => Ok(r),
-            None => Err(Abort::Panic("execution ended without a result".into())),
-        },
-        Err(payload) => {
-            let wrapper = if let Some(s) = payload.downcast_ref::<&str>() {
-                s.to_string()
-            } else if let Some(s) = payload.downcast_ref::<String>() {
-                s.clone()
-            } else {
-                String::new()
-            };
-            let msg = first_panic.unwrap_or_else(|| wrapper.clone());
-            let low = format!("{msg} {wrapper}").to_lowercase();
-            if low.contains("deadlock") {
-                Err(Abort::Deadlock(msg))
-            } else if low.contains("exceeded max_steps") || low.contains("max_steps") {
-                Err(Abort::StepLimit(msg))
-            } else {
-                Err(Abort::Panic(msg))
-            }
-        }
+    let job = Job {
+        cfg: cfg.clone(),
+        body: Arc::new(move || {
+            let r = body();
+            *slot2.lock().unwrap() = Some(r);
+        }),
     };
-
+    let done = with_engine(|e| {
+        e.jobs.send(job).expect("engine thread is gone");
+        e.done.recv().expect("engine thread died")
+    });
+    let result = match (done.abort, slot.lock().unwrap().take()) {
+        (Some(a), _) => Err(a),
+        (None, Some(r)) if done.completed => Ok(r),
+        (None, _) => Err(Abort::Panic("execution ended without a result".into())),
+    };
+    let (rec, ctx) = (done.rec, done.ctx);
     let counters = Counters {
         steps: rec.choices.len() as u64,
         branching: rec.branching,
